@@ -24,7 +24,7 @@ let o_s2k kind h salt count n pass =
 let exc_s = function
   | EDecrypt -> "PGPDecryptionError" | EValue -> "ValueError" | ENotImpl -> "NotImplementedError"
   | EType -> "TypeError" | EIndex -> "IndexError" | EPGP -> "PGPError" | EStopIter -> "StopIteration"
-  | EAttr -> "AttributeError" | EPrim -> "Prim" | ENotEncrypted -> "NotEncrypted" | EUnmodelled -> "Unmodelled" | EFuel -> "Fuel"
+  | EEncrypt -> "PGPEncryptionError" | EAttr -> "AttributeError" | EPrim -> "Prim" | ENotEncrypted -> "NotEncrypted" | EUnmodelled -> "Unmodelled" | EFuel -> "Fuel"
 let pr_res f = function Ok x -> "ok " ^ f x | Raise e -> "raise " ^ exc_s e
 let pr_opt f = function Some x -> f x | None -> "ERR"
 let pr_optz = function Some z -> hexnum_of_z z | None -> "ERR"
